@@ -180,13 +180,14 @@ def case_input(rec, c, mod=None):
         p1, p2, m1, m2, selfo = pos[:, :split], pos[:, split:], mol[:split], mol[split:], False
     want, npairs = direct(p1, p2, m1, m2, box, selfo, k)
     rec.state()
+    dtol = 4 * float(np.finfo(np.float32).eps) * (1.0 + npairs / max(1.0, float(p1.shape[1] if selfo else p1.shape[1] + p2.shape[1]))) * 2.0
     tol = 1e-5 + 3e-7 * npairs            # float32 inside the extension: measured <= 2e-6 for 156 ordered pairs on 8192 bins
     chunks = c.get('chunks') or (list(range(1, n + 3)) + [16])
     snap = [a.copy() for a in (p1, p2, m1, m2, box)]
     for nc in chunks:
         first = None
         for team in TEAMS:
-            for rep in range(REPS):
+            for rep in range(c.get('reps', REPS)):
                 set_team(team)
                 try:
                     deb = mod.Debyer(domain=dom, nthreads=nc)
@@ -207,11 +208,18 @@ def case_input(rec, c, mod=None):
                 if first is None:
                     first = got.copy()
                 elif not np.array_equal(got, first):
-                    rec.fail(dict(c, chunks=[nc], team=team),
-                             'Debyer with %d chunks: the result on %d OpenMP threads (repetition %d) differs bitwise from the result on %d thread(s) by %.3g: '
-                             'the curve depends on the team size / on timing' % (nc, team, rep, TEAMS[0], float(np.max(np.abs(got - first)))),
-                             tags('nondeterministic'))
-                    return
+                    # Today's code reduces the per-chunk rows in a fixed order, so the curves are bitwise equal.  An implementation
+                    # that lets OpenMP reduce (order of the float32 additions depends on the team) is still within the property
+                    # ("does not depend on the number of threads" to rounding): only a difference beyond float32 summation
+                    # rounding is a violation.
+                    dd = float(np.max(np.abs(got - first)))
+                    rec.count('bitwise_differences_within_rounding')
+                    if dd > dtol:
+                        rec.fail(dict(c, chunks=[nc], team=team),
+                                 'Debyer with %d chunks: the result on %d OpenMP threads (repetition %d) differs from the result on %d thread(s) by %.3g '
+                                 '(float32 summation rounding allows %.3g): the curve depends on the team size / on timing'
+                                 % (nc, team, rep, TEAMS[0], dd, dtol), tags('nondeterministic'))
+                        return
         if npairs:
             rec.outcome(core.digest([n, part, frames, boxname, split, order, nc, c.get('length'), first[:16]], 5))
     if not all(np.array_equal(a, b) for a, b in zip((p1, p2, m1, m2, box), snap)):
@@ -305,6 +313,10 @@ def run(rec, tier, seed):
         for n, part in ((5, [0, 0, 0, 0, 0]), (13, [0] * 13), (13, [i // 7 for i in range(13)])):
             cases.append({'n': n, 'molecules': part, 'frames': 1, 'box': 'small', 'split': None, 'chunks': [1, 3], 'length': L, 'dk': dk})
             cases.append({'n': n, 'molecules': part, 'frames': 1, 'box': 'large', 'split': n // 2, 'chunks': [2], 'length': L, 'dk': dk})
+    # contention: many pairs, few bins, many chunks and threads, more repetitions (a shared accumulator loses updates here)
+    for n in ((60,) if quick else (60, 120)):
+        cases.append({'n': n, 'molecules': [0] * n, 'frames': 2, 'box': 'small', 'split': None, 'chunks': [16, 7], 'reps': 6, 'length': 4, 'dk': 0.9})
+        cases.append({'n': n, 'molecules': [0] * n, 'frames': 2, 'box': 'small', 'split': n // 2, 'chunks': [16], 'reps': 6, 'length': 4, 'dk': 0.9})
     # every order of the sites (self term), n <= 4
     for n in (2, 3, 4):
         for part in partitions(n):
